@@ -63,6 +63,32 @@ fn window_invariants(w: &World, prop: &str, align: usize) -> Option<Violation> {
     None
 }
 
+/// Conservation inside the receiver: the bytes it holds (hook: window.end - window.start) are
+/// exactly the bytes delivered to it minus the bytes consumed by dropped guards.
+pub fn receiver_conservation(w: &World, prop: &str) -> Option<Violation> {
+    for (i, r) in w.recvs.iter().enumerate() {
+        if matches!(r.outcome, RecvOutcome::Panic(_) | RecvOutcome::InFlight) {
+            continue;
+        }
+        if let RecvOutcome::Msg { drop_panic: Some(_), .. } = r.outcome {
+            continue;
+        }
+        let (s, e, _, _) = r.window_after;
+        let held = e.saturating_sub(s);
+        let expect = r.delivered_at_end.saturating_sub(r.consumed_after);
+        if held != expect {
+            return v(
+                prop,
+                "6b-conservation",
+                "buffer-bytes",
+                "buffer-window",
+                format!("after recv #{}: the receive buffer holds {} bytes (window {}..{}), but {} were delivered and {} consumed (= {})", i, held, s, e, r.delivered_at_end, r.consumed_after, expect),
+            );
+        }
+    }
+    None
+}
+
 fn recv_panics(w: &World, prop: &str) -> Option<Violation> {
     for (i, r) in w.recvs.iter().enumerate() {
         match &r.outcome {
@@ -199,6 +225,9 @@ pub fn check_delivery(w: &World, plan: &Plan, prop: &str, is_async: bool) -> Opt
     if w.consumed > w.pipe.delivered_total {
         return v(prop, "4-consume", "over-consume", "recv", format!("consumed {} > delivered {}", w.consumed, w.pipe.delivered_total));
     }
+    if let Some(x) = receiver_conservation(w, prop) {
+        return Some(x);
+    }
     window_invariants(w, prop, plan.align)
 }
 
@@ -327,6 +356,9 @@ pub fn check_faults(w: &World, plan: &Plan, prop: &str, _is_async: bool) -> Opti
                 return v(prop, "R1-retry", "over-consume", "recv", format!("recv #{}: size() {} exceeds the {} bytes held", i, size, occupied));
             }
         }
+    }
+    if let Some(x) = receiver_conservation(w, prop) {
+        return Some(x);
     }
     // receive window invariants hold under faults too (poison is a sender-side notion)
     for (i, r) in w.recvs.iter().enumerate() {
